@@ -149,6 +149,8 @@ class Machine:
             # element of a small buffer whose (single) element value is known
             if base[0] == "i" and len(pr) == 1 and isinstance(pr[0], dict) and ("i" in pr[0] or "ci" in pr[0]):
                 return base
+            if base[0] == "tup" and len(pr) == 1 and isinstance(pr[0], dict) and "f" in pr[0] and pr[0]["f"] < len(base[1]) and base[1][pr[0]["f"]] is not None:
+                return base[1][pr[0]["f"]]
             return TOP
         v = env.get(p["l"])
         if v is not None:
@@ -187,6 +189,20 @@ class Machine:
             v = env.get(p["l"])
             if v and v[0] == "t":
                 return ("i", _VARIANT_INDEX[v[1]])
+            return TOP
+        if k == "agg" and r.get("ak") == "tuple" and 1 <= len(r["ops"]) <= 4:
+            # a small tuple of known values (`let (ctx, n) = if .. { (A, 1) } else { (B, k) }`)
+            def _v(o):
+                x = self.val(body, env, o) if _derived(env, o) else TOP
+                if x is TOP or not x:
+                    from . import flow as _flow
+                    rv = _flow.resolve_variant(body, o)          # a unit enum variant written as a constant
+                    if rv is not None and rv[2] is not None:
+                        return ("i", rv[2])
+                return x
+            vals = tuple(_v(o) for o in r["ops"])
+            if any(v is not TOP and v and v[0] == "i" for v in vals):
+                return ("tup", tuple(v if (v is not TOP and v and v[0] == "i") else None for v in vals))
             return TOP
         if k == "agg" and r.get("ak") == "adt":
             if r["adt"] in ("std::result::Result", "std::ops::ControlFlow", "std::option::Option"):
@@ -281,6 +297,7 @@ class Machine:
         if k == "call":
             tgt = t.get("t")
             d = t["dest"]
+            self.cur_env = env
             ev = self.A.event(self, body, bb, t)
             if ev is not None:
                 if isinstance(ev, tuple):
